@@ -32,7 +32,14 @@ theorem C04_resume_pos (a : Attempt) (hs : Stopper a.stop) (p : Position) (us : 
       ((runAttempt a p us).calls = (runAttempt a p us).accepted ∨
         ∃ tx, (runAttempt a p us).calls = (runAttempt a p us).accepted ++ [tx] ∧ a.handler tx = false) ∧
       (runAttempt a p us).crash = false := by
-  sorry
+  unfold runAttempt
+  obtain ⟨us1, us2, hsplit, hacc, hpos, hcr, hcalls⟩ :=
+    SL.run_prefix a.handler [a.stop] (SL.quiet_stopper _ hs) us hwf (idleAt p) ⟨rfl, rfl⟩ _
+      (List.take_prefix a.cut _)
+  refine ⟨us1, us2, hsplit, hacc, hpos, ?_, hcr⟩
+  rcases hcalls with ⟨hc, _⟩ | ⟨tx, hc, hh, _⟩
+  · exact Or.inl hc
+  · exact Or.inr ⟨tx, hc, hh⟩
 
 /-- a sequence of attempts on one streamer: each starts where the previous one stopped, and the master serves the
     units that follow that boundary -/
@@ -49,21 +56,46 @@ inductive Attempts : Position → List DUnit → List Attempt → List Transacti
 /-- any sequence of stopping attempts can be run (the position kept is always a boundary the master can serve from) -/
 theorem C04_attempts_exist (atts : List Attempt) (hs : ∀ a ∈ atts, Stopper a.stop) (p : Position) (us : List DUnit)
     (hwf : ∀ u ∈ us, WFUnit u) : ∃ acc p' rem, Attempts p us atts acc p' rem := by
-  sorry
+  induction atts generalizing p us with
+  | nil => exact ⟨[], p, us, .nil p us⟩
+  | cons a rest ih =>
+    obtain ⟨us1, us2, hsplit, hacc, hpos, _, _⟩ := C04_resume_pos a (hs a (by simp)) p us hwf
+    obtain ⟨acc, p', rem, h⟩ := ih (fun b hb => hs b (by simp [hb])) (dendPos p us1) us2
+      (fun u hu => hwf u (by simp [hsplit, hu]))
+    exact ⟨_, p', rem, .cons a p us us1 us2 rest acc p' rem hsplit hacc hpos h⟩
 
 /-- Exactly once: over any sequence of failed attempts followed by a successful one, the transactions accepted by the
     handler are exactly the committed ones, each once, in order. -/
 theorem C04_exactly_once (atts : List Attempt) (p : Position) (us : List DUnit) (hwf : ∀ u ∈ us, WFUnit u)
     (acc : List Transaction) (p' : Position) (rem : List DUnit) (h : Attempts p us atts acc p' rem) :
     acc ++ (runD (fun _ => true) (idleAt p') ((rem.flatMap devs).map some)).accepted = dexpected p us := by
-  sorry
+  induction h with
+  | nil p us =>
+    rw [SL.run_all us (idleAt p) ⟨rfl, rfl⟩ hwf]
+    rfl
+  | cons a p us us1 us2 rest acc p' rem hsplit hacc hpos htail ih =>
+    subst hsplit
+    have h2 := ih (fun u hu => hwf u (by simp [hu]))
+    rw [hacc, List.append_assoc, h2, (SL.dexpected_append p us1 us2).1]
 
 /-- a rejected transaction is delivered again by the next attempt, an accepted one never is -/
 theorem C04_redelivery (a : Attempt) (hs : Stopper a.stop) (p : Position) (us : List DUnit) (hwf : ∀ u ∈ us, WFUnit u)
     (tx : Transaction) (hc : (runAttempt a p us).calls = (runAttempt a p us).accepted ++ [tx]) :
     ∃ us1 us2, us = us1 ++ us2 ∧ (runAttempt a p us).pos = dendPos p us1 ∧
       (dexpected (dendPos p us1) us2).head? = some tx := by
-  sorry
+  unfold runAttempt at hc ⊢
+  obtain ⟨us1, us2, hsplit, _, hpos, _, hcalls⟩ :=
+    SL.run_prefix a.handler [a.stop] (SL.quiet_stopper _ hs) us hwf (idleAt p) ⟨rfl, rfl⟩ _
+      (List.take_prefix a.cut _)
+  rcases hcalls with ⟨hc', _⟩ | ⟨tx', hc', _, hhd⟩
+  · rw [hc'] at hc
+    have hl := congrArg List.length hc
+    simp at hl
+  · rw [hc'] at hc
+    have he := List.append_cancel_left hc
+    simp only [List.cons.injEq, and_true] at he
+    subst he
+    exact ⟨us1, us2, hsplit, hpos, hhd⟩
 
 /-! non-vacuity: a handler that rejects the first call, stream of one transaction -/
 example : (runAttempt ⟨fun _ => false, 5, none⟩ ⟨[97], 4⟩ [.tx ⟨[], none, []⟩ 50 1 [] .xid 90 2]).pos = ⟨[97], 4⟩ := by decide
